@@ -27,6 +27,7 @@ def dispatch (line : String) : String :=
     | "mkiso" => mkisoOp args
     | "dec" => decOp args
     | "fileops" => fileopsOp args
+    | "fileopsclr" => fileopsclrOp args
     | "c13" => c13Op args
     | "c15w" => c15wOp args
     | "c15l" => c15lOp args
